@@ -16,6 +16,7 @@ import Pyc.Driver.Witness
 import Pyc.Driver.Redeemers
 import Pyc.Driver.Leaves
 import Pyc.Driver.SizeDom
+import Pyc.Driver.Metadata
 open Lean Pyc.Driver
 
 /-- dispatch on the prefix of `op` -/
@@ -39,6 +40,7 @@ def dispatch (op : String) (j : Json) : R Json :=
   else if op == "ranks" || op == "views" || op.startsWith "sdh." || op.startsWith "rd." then handleRedeemers op j
   else if op.startsWith "leaf." then handleLeaf op j
   else if op.startsWith "dom." then handleSizeDom op j
+  else if op.startsWith "md." then handleMetadata op j
   else throw s!"unknown op {op}"
 
 def handleLine (line : String) : String :=
